@@ -57,6 +57,23 @@ public:
 
   // per function state
   std::map<const Stmt *, unsigned> ElemBlock; // stmt -> block id
+  // shadowed locals get distinct names: second declaration of `x` is `x#2`
+  std::map<const VarDecl *, std::string> LocalNames;
+  std::map<std::string, unsigned> LocalCount;
+
+  std::string localName(const VarDecl *VD) {
+    if (!VD->isLocalVarDeclOrParm())
+      return VD->getNameAsString();
+    auto It = LocalNames.find(VD);
+    if (It != LocalNames.end())
+      return It->second;
+    std::string N = VD->getNameAsString();
+    unsigned &C = LocalCount[N];
+    C++;
+    std::string R = C == 1 ? N : N + "#" + std::to_string(C);
+    LocalNames[VD] = R;
+    return R;
+  }
   std::map<const Stmt *, unsigned> Ids;
   unsigned NextId = 0;
   unsigned CurBlock = 0;
@@ -236,7 +253,10 @@ public:
   }
 
   void declRefAttrs(const ValueDecl *D) {
-    J.attribute("n", D->getNameAsString());
+    if (auto *VD0 = dyn_cast<VarDecl>(D))
+      J.attribute("n", localName(VD0));
+    else
+      J.attribute("n", D->getNameAsString());
     if (auto *PV = dyn_cast<ParmVarDecl>(D)) {
       J.attribute("d", "param");
       J.attribute("pi", (int64_t)PV->getFunctionScopeIndex());
@@ -611,7 +631,7 @@ public:
         for (const Decl *D : DS->decls()) {
           if (auto *VD = dyn_cast<VarDecl>(D)) {
             J.object([&] {
-              J.attribute("n", VD->getNameAsString());
+              J.attribute("n", localName(VD));
               J.attribute("t", typeStr(VD->getType()));
               intTypeAttrs(VD->getType());
               if (VD->isStaticLocal())
@@ -696,6 +716,22 @@ public:
     ElemBlock.clear();
     Ids.clear();
     NextId = 0;
+    LocalNames.clear();
+    LocalCount.clear();
+    for (const ParmVarDecl *P : FD->parameters())
+      localName(P);
+    // declaration order = source order: walk the body once
+    {
+      struct DV : RecursiveASTVisitor<DV> {
+        Emitter &E;
+        DV(Emitter &E) : E(E) {}
+        bool VisitVarDecl(VarDecl *VD) {
+          E.localName(VD);
+          return true;
+        }
+      } V(*this);
+      V.TraverseStmt(FD->getBody());
+    }
 
     CFG::BuildOptions BO;
     BO.setAllAlwaysAdd();
